@@ -18,6 +18,10 @@ CLAIMED['C09'] = dict(engine='E3', technique='Coq proof: generic simulation theo
     text='Partial proof. For command lists of any length: the walk bookkeeping equals the standard current-point rules; explicit_lines, expand_shorthand, absolute, absolute_moveto, relative and move preserve (or shift) the interpreted segment list exactly; target forms; rounding bound. The absolute/relative theorems assume no 1e-9 near miss of the subpath start (the code snaps those). subpaths(), arcs in as_cmd_seq, basic-shape outlines are covered by the exhaustive correspondence (all sequences of <=2/3 commands over 20 letters) and the spec judge run on every check.',
     note='Reals for floats; model/Walk.v (walk loop) hand-written and correspondence-checked; spec/PathSem.v is the meaning of path data; one known finding (arcs_to_cubics API followed by shorthand).',
     design='§7 C09')
+CLAIMED['C10'] = dict(engine='E2', technique='Coq model of the regex tokenizer pinned (by provable string equalities) to the regexes regenerated from source, SVG 1.1 grammar as an executable Coq spec; exhaustive-string differential run (all strings <=5/6 chars over a 14-symbol alphabet + token sequences) and grammar judge',
+    text='Partial. Machine-checked: the tokenizer model is pinned to the exact regular expressions / lexer tables of the current source (any edit breaks an obligation), totality (command list or ValueError), agreement with the grammar on an adversarial table. Soundness against the grammar for all strings and the print/parse round trip are not yet theorems: they are decided on every run by the exhaustive correspondence (implementation = model on 6*10^5 strings) and the grammar judge evaluated on the implementation.',
+    note='Hand model (H) of regex semantics; CPython float()/repr() trusted; ASCII only; one fix commit (leading zeros).',
+    design='§7 C10')
 PENDING = {}
 
 def main():
@@ -47,6 +51,7 @@ def main():
                   'enable': 'none needed: the harness observes picosvg only through its public API (PYTHONPATH=/repo/src) and calls pathops itself',
                   'baseline_off_cmd': BASE, 'source_commits': [], 'add_only': True},
         'engines': [
+            {'name': 'E2', 'path': 'coq/model/Lex.v coq/model/PathParse.v coq/model/TransformParse.v coq/spec/PathGrammar.v coq/gen/G_regex.v coq/proofs/E2_*.v', 'serves_properties': ['C10', 'C11', 'C05'], 'kind_free_text': 'character-level lexers pinned to the source regexes; SVG path grammar'},
             {'name': 'E3', 'path': 'coq/gen/G_types.v coq/gen/G_meta.v (generated) coq/model/Walk.v coq/spec/PathSem.v coq/proofs/E3_*.v', 'serves_properties': ['C09', 'C18', 'C20', 'C01', 'C07'], 'kind_free_text': 'walk state machine and path rewrites vs SVG path semantics'},
             {'name': 'E4', 'path': 'coq/gen/G_arc.v (generated) coq/model/Arc.v coq/proofs/E4_*.v', 'serves_properties': ['C12', 'C09'], 'kind_free_text': 'arc to cubic numerics over R'},
             {'name': 'E1', 'path': 'coq/gen/G_geom.v coq/gen/G_transform.v (generated) coq/proofs/E1_*.v', 'serves_properties': ['C11', 'C06', 'C19', 'C02'], 'kind_free_text': 'affine algebra and rectangles, translated from source'},
